@@ -384,8 +384,75 @@ def rule_r5(facts, rep, rid="C04-R5"):
         else:
             rep.ok(rid, "%s|private-module" % mod, "not exported")
 
+# ------------------------------------------------------------------------------------------ R6
+
+def rule_r6(facts, rep, rid="C04-R6"):
+    """The incremental path merges the freshly indexed note INTO the library index: per key, a set union."""
+    ri = facts.adt(REFINDEX)
+    set_fields = [fl["name"] for fl in ri["variants"][0]["fields"] if "HashMap<" in fl["ty"] and ("HashSet<" in fl["ty"] or "Vec<" in fl["ty"] or "BTreeSet<" in fl["ty"])]
+    rep.floor(rid, "set-valued maps in RefIndex", len(set_fields), 2)
+    mg = facts.fn("RefIndex::merge")
+    rep.saw_fn(mg)
+    # 1. no method of RefIndex replaces a key's whole set (HashMap::insert / extend / assignment on the map itself)
+    n = 0
+    for f in facts.body_fns():
+        owner = f.parent if f.kind == "closure" and f.parent else f.def_
+        of = facts.fns.get(owner)
+        if of is None or of.impl_self != REFINDEX or f.kind == "closure":
+            continue
+        rep.saw_fn(f)
+        counts = {}
+        for x in fb.walk(f.body):
+            if x.get("k") == "mcall" and self_field(x.get("recv")) in set_fields:
+                cal = fb.callee(x) or ""
+                nm = x["name"]
+                if cal.endswith(("HashMap::insert", "HashMap::extend", "HashMap::retain", "HashMap::clear", "HashMap::remove", "HashMap::drain")) or nm in ("insert", "extend", "retain", "clear", "remove", "drain"):
+                    i = counts.get(nm, 0)
+                    counts[nm] = i + 1
+                    n += 1
+                    rep.violation(rid, "%s|%s.%s|%d" % (f.def_, self_field(x["recv"]), nm, i), "RefIndex.%s.%s(..) replaces or deletes whole per-key sets: the references that OTHER notes "
+                                  "hold to the same key are lost from the index when one note is re-indexed (the index must only be unioned into, per key)" % (self_field(x["recv"]), nm), loc(f, x))
+            if x.get("k") == "assign" and self_field(x["l"]) in set_fields:
+                n += 1
+                rep.violation(rid, "%s|%s|assigned" % (f.def_, self_field(x["l"])), "RefIndex.%s is replaced wholesale" % self_field(x["l"]), loc(f, x))
+    # 2. merge unions every set-valued map: self.F.entry(k).or_*().extend/insert(..) fed from other.F
+    c = ctx(mg)
+    for fld in set_fields:
+        key = "%s|unions:%s" % (mg.def_, fld)
+        okm = False
+        for x in fb.walk(mg.body):
+            if x.get("k") == "mcall" and x["name"] in ("extend", "insert", "union") and (fb.callee(x) or "").startswith(("std::collections::HashSet::", "std::collections::hash::set::HashSet::", "std::iter::Extend::extend", "std::collections::BTreeSet::", "std::vec::Vec::")):
+                r = x["recv"]
+                names = []
+                while r is not None and r.get("k") == "mcall":
+                    names.append(r["name"])
+                    r = r["recv"]
+                if "entry" in names and any(n_.startswith("or_") for n_ in names) and self_field(r) == fld:
+                    # the values come from the other index's same-named field
+                    src = set()
+                    for a in x["args"]:
+                        src |= c.mentions(a)
+                    if ("field", fld) in src or ("param", "other") in src:
+                        okm = True
+        if okm:
+            rep.ok(rid, key, "self.%s.entry(key).or_insert_with(..).extend(other's set)" % fld, mg.loc)
+        else:
+            rep.violation(rid, key, "RefIndex::merge does not union other.%s into self.%s per key (entry(..).or_*().extend(..)): after an incremental update the "
+                          "index differs from the one a fresh import builds" % (fld, fld), mg.loc)
+    # 3. from_markdown merges (never assigns) the index; import assigns a complete one
+    fm = facts.fn("Graph::from_markdown")
+    key = fm.def_ + "|merges-index"
+    merges = [x for x in fb.walk(fm.body) if x.get("k") == "mcall" and (fb.callee(x) or "").endswith("RefIndex::merge") and self_field(x.get("recv")) == "index"]
+    assigns = [x for x in fb.walk(fm.body) if x.get("k") == "assign" and self_field(x["l"]) == "index"]
+    if merges and not assigns:
+        rep.ok(rid, key, "self.index.merge(index of the new root)", loc(fm, merges[0]))
+    else:
+        rep.violation(rid, key, "the single-key update %s the library index" % ("replaces" if assigns else "does not merge into"), fm.loc)
+
 
 def run(facts, rep, tier):
+    rep.rule("C04-R6", "The library's reference index is only ever unioned into, per key: no RefIndex method replaces or deletes a key's whole set, RefIndex::merge "
+             "unions every set-valued map through entry(k).or_*().extend(..), and the single-key update merges (never assigns) the index.")
     rep.rule("C04-R1", "Tombstone filter discipline: the merge-only reference index is read only through the two Graph wrappers whose "
              "result passes filter(!graph_node(id).is_empty()); any other reader of RefIndex sees ids of deleted versions.")
     rep.rule("C04-R2", "The index walker (RefIndex::index_node) recurses on every `next`/`child` link and records the links of every "
@@ -401,3 +468,4 @@ def run(facts, rep, tier):
     rule_r3(facts, rep)
     rule_r4(facts, rep)
     rule_r5(facts, rep)
+    rule_r6(facts, rep)
